@@ -296,11 +296,11 @@ def runner_fold(prog, repetitions, flags=None, seed=77):
 from cpv.build import AnalysisBroken as AnalysisBroken_
 
 
-def registry_fold(prog, tests, flags=(0, 0)):
+def registry_fold(prog, tests, flags=(0, 0), during=None):
     """Fold TestRegistry::runAllTests over a model list of tests. tests: list of (group, selected). flags:
     (runInSeperateProcess_, runIgnored_). Every UtestShell / TestResult method is a recording stub; every
     TestRegistry member the loop calls is inlined, so helpers are transparent. Returns (event log, env after)."""
-    from cpv.ceval import Evaluator
+    from cpv.ceval import Evaluator, Unknown
     from .common import string_hooks
     rt = prog.fn("TestRegistry::runAllTests")
     addr = [1000 + 100 * i for i in range(len(tests))]
@@ -318,6 +318,32 @@ def registry_fold(prog, tests, flags=(0, 0)):
         hooks["TestResult::" + m] = rec(m)
     for m in ("runOneTest", "setRunInSeperateProcess", "setRunIgnored"):
         hooks["UtestShell::" + m] = rec(m)
+    fields = {fl["name"] for fl in prog.records.get("TestRegistry", {}).get("fields", [])}
+    build_hooks = None
+    if during is not None:
+        # `during`: test index -> [(registry method, args)] applied to the registry while that test runs (a test body or a plugin
+        # action may install or reset plugins); the plugin chain each test is handed is logged
+        def run_one(ev_, o, *a_):
+            if getattr(ev_, "_parent", None) is not None:
+                raise Unknown("runOneTest is not called from runAllTests itself (registry changes during a run are modelled on its frame)")
+            log.append(("runOneTest", idx.get(o), a_[0] if a_ else None))
+            for name, args in during.get(idx.get(o), ()):
+                ms = [f for f in prog.methods_of("TestRegistry") if f.name == name and len(f.params) == len(args)]
+                if len(ms) != 1:
+                    raise AnalysisBroken_("TestRegistry::%s with %d parameters not found" % (name, len(args)))
+                rootk = lambda k: k.split(".")[0].split("[")[0]
+                env2 = {k: v for k, v in ev_.env.items() if rootk(k) in fields}
+                env2.update({q["name"]: v for q, v in zip(ms[0].params, args)})
+                e2 = Evaluator(prog, ms[0], env=env2, calls=dict(build_hooks))
+                e2.objects = True
+                e2.pass_object = True
+                e2.run_blocks(ms[0].entry, max_steps=2000)
+                for k, v in e2.env.items():
+                    if rootk(k) in fields:
+                        ev_.env[k] = v
+            return 0
+        run_one.wants_ev = True
+        hooks["UtestShell::runOneTest"] = run_one
     hooks["UtestShell::getNext"] = lambda o, *a_: (addr[idx[o] + 1] if idx.get(o, len(addr)) + 1 < len(addr) else 0) if o in idx else None
     hooks["UtestShell::getGroup"] = lambda o, *a_: ("str", tests[idx[o]][0]) if o in idx else None
 
